@@ -3,6 +3,8 @@
 desc = {"kind": "threshold", "op": "ge"|"le", "table": [[arm, t], ...], "default": t}
      | {"kind": "parity"}                       reward is a success when round(reward) is even
      | {"kind": "flip"}                         1 - reward on {0,1}: an involution, not idempotent
+any desc may carry "poison": v - the binarizer raises ValueError for the reward v (a value it cannot convert), whatever
+the arm: the way a user function fails in the middle of a batch
 """
 
 
@@ -63,9 +65,31 @@ class Flip:
         return "Flip()"
 
 
+class Poisoned:
+    def __init__(self, inner, poison):
+        self.inner = inner
+        self.poison = poison
+
+    def __call__(self, arm, reward):
+        if reward == self.poison:
+            raise ValueError("binarizer: cannot convert reward %r" % (reward,))
+        return self.inner(arm, reward)
+
+    def __eq__(self, other):
+        return isinstance(other, Poisoned) and (self.inner, self.poison) == (other.inner, other.poison)
+
+    def __hash__(self):
+        return hash(self.inner) + 1
+
+    def __repr__(self):
+        return "Poisoned(%r,%r)" % (self.inner, self.poison)
+
+
 def make(desc):
     if desc is None:
         return None
+    if desc.get("poison") is not None:
+        return Poisoned(make({k: v for k, v in desc.items() if k != "poison"}), desc["poison"])
     kind = desc["kind"]
     if kind == "threshold":
         return Threshold(desc["table"], desc.get("op", "ge"), desc.get("default", 0))
